@@ -106,6 +106,25 @@ def run(task):
                         r["duop"].append(duo_valid(child, Gp, tp, lp))
                     if Gq:
                         r["duoq"].append(duo_valid(child, Gq, tq, lq))
+            # PEDERR: the statistic call-pedigree reports = fraction of trace steps whose (progeny, parents) fail the validity
+            # test; the walk itself is used as the progeny's trace, with both parents known / only p known / only q known
+            if lam_ok and Gp and Gq:
+                from mchap.pedigree.classes import PedigreeAllelesMultiTrace
+                walk = vcf_order(K, tp + tq)
+                mp = max(len(Gp), len(Gq), tp + tq)
+                tr = np.full((1, len(walk), 3, mp), -1, dtype=np.int16)
+                for t, child in enumerate(walk):
+                    tr[0, t, 0, : len(Gp)] = Gp
+                    tr[0, t, 1, : len(Gq)] = Gq
+                    tr[0, t, 2, : tp + tq] = child
+                pl = np.array([len(Gp), len(Gq), tp + tq])
+                tau = np.array([[1, 1], [1, 1], [tp, tq]])
+                lam = np.array([[0.0, 0.0], [0.0, 0.0], [lp, lq]])
+                mt = PedigreeAllelesMultiTrace(tr, n_allele=K)
+                r["pederr"] = []
+                for par in ([0, 1], [0, -1], [-1, 1]):
+                    parents = np.array([[-1, -1], [-1, -1], par])
+                    r["pederr"].append(float(mt.incongruence(pl, parents, tau, lam)[2]))
             out.append(r)
         return out
     if op == "gamete_rows":
